@@ -344,6 +344,54 @@ def hausdorff(polyA, polyB):
     return max(one(polyA, polyB), one(polyB, polyA))
 
 
+def _within_one(a, b, lim2):
+    """Is every vertex of polyline a within sqrt(lim2) of polyline b?  Early exits and a
+    locality heuristic (search b's segments outwards from the last hit)."""
+    m = len(b)
+    if m == 1:
+        bx, by = b[0]
+        for (x, y) in a:
+            if (x - bx) ** 2 + (y - by) ** 2 > lim2:
+                return False, (x, y)
+        return True, None
+    last = 1
+    for (x, y) in a:
+        found = False
+        # outward search from `last`
+        lo, hi = last, last + 1
+        while lo >= 1 or hi < m:
+            if lo >= 1:
+                x0, y0 = b[lo - 1]
+                x1, y1 = b[lo]
+                if dist2_seg(x, y, x0, y0, x1, y1) <= lim2:
+                    found = True
+                    last = lo
+                    break
+                lo -= 1
+            if hi < m:
+                x0, y0 = b[hi - 1]
+                x1, y1 = b[hi]
+                if dist2_seg(x, y, x0, y0, x1, y1) <= lim2:
+                    found = True
+                    last = hi
+                    break
+                hi += 1
+        if not found:
+            return False, (x, y)
+    return True, None
+
+
+def hausdorff_within(polyA, polyB, lim):
+    """-> (ok, witness_point): symmetric vertex-to-polyline Hausdorff distance <= lim?"""
+    if not polyA or not polyB:
+        return (not polyA and not polyB), None
+    lim2 = lim * lim
+    ok, w = _within_one(polyA, polyB, lim2)
+    if not ok:
+        return False, w
+    return _within_one(polyB, polyA, lim2)
+
+
 # ---------------------------------------------------------------- tight bounding box
 
 
